@@ -1647,6 +1647,12 @@ func ZipAll[T any]() func(Observable[Observable[T]]) Observable[[]T] {
 					subscriberCtx,
 					NewObserverWithContext(
 						func(ctx context.Context, flattenSources []Observable[T]) {
+							if len(flattenSources) == 0 {
+								// nothing to zip
+								destination.CompleteWithContext(ctx)
+								return
+							}
+
 							innerSub.Add(
 								// ...then we zip all inner observables.
 								zipAllInnerSubscriptions(ctx, flattenSources, destination),
@@ -1656,7 +1662,8 @@ func ZipAll[T any]() func(Observable[Observable[T]]) Observable[[]T] {
 							destination.ErrorWithContext(ctx, err)
 						},
 						func(ctx context.Context) {
-							destination.CompleteWithContext(ctx)
+							// The completion of the high-order observable only means that the list
+							// of sources is known: the output completes when the zip itself is done.
 						},
 					),
 				)
